@@ -14,7 +14,7 @@ from vf.pyvc.speclib import SpecLib, F_FILEDATA, F_FIND
 from vf.pyvc.world import World, Contract
 from vf.pyvc.interp import LoopSpec
 from vf.pyvc.values import VObj, VInt, VBool, VSeq, VOpt, NONE, VFunc, fresh, fresh_name, SeqI, VBox, sort_of
-from vf.pyvc.driver import verify_contracts
+from vf.pyvc.driver import verify_contracts, verify_lemmas, Lemma
 
 MOD = "debian.arfile"
 
@@ -313,6 +313,16 @@ class FromFile(Contract):
         return {"fp": fp, "fname": fn, "encoding": fresh(("opt", "str"), "encoding"), "errors": fresh(("opt", "str"), "errors")}
 
 
+class FromFileWellFormed(FromFile):
+    """on a well-formed header from_file cannot fail and the new member satisfies the invariant every
+    member operation requires (this links the archive level to the member level)"""
+    requires = ("fp.pos >= 0", "hdr_ok(fp.data, fp.pos)")
+    ensures = ("result is not None",
+               "0 <= result.__offset and result.__offset <= result.__end and result.__end <= len(fp.data) "
+               "and result.__offset <= result.__cur")
+    raises = {}
+
+
 class FromFileIdentity(FromFile):
     """the one clause about object identity (not expressible for callers that keep members by value)"""
     ensures = ("implies(result is not None and not fname, result.__fp is fp)",)
@@ -329,7 +339,8 @@ def member_at(d, p, fname, enc, errs):
 
 def hdr_ok(d, p):
     return (p + 60 <= len(d) and d[p + 58:p + 60] == FILE_MAGIC and is_int(d[p + 16:p + 28]) and is_int(d[p + 28:p + 34])
-            and is_int(d[p + 34:p + 40]) and is_int(d[p + 48:p + 58]) and int(d[p + 48:p + 58]) >= 0)
+            and is_int(d[p + 34:p + 40]) and is_int(d[p + 48:p + 58]) and int(d[p + 48:p + 58]) >= 0
+            and p + 60 + int(d[p + 48:p + 58]) <= len(d))          # the member's data is complete
 
 
 def hdr_pos(d, k):
@@ -388,12 +399,100 @@ def dict_spec_step(d, k, fname, enc, errs):
                       member_at(d, hdr_pos(d, k - 1), fname, enc, errs))
 
 
+def last_idx(d, k, name, enc, errs):
+    """index of the last of the first k members whose name is `name`, or -1"""
+    if k <= 0:
+        return -1
+    if hdr_name(d[hdr_pos(d, k - 1):hdr_pos(d, k - 1) + 60], enc, errs) == name:
+        return k - 1
+    return last_idx(d, k - 1, name, enc, errs)
+
+
 ARGS = "fp.data, {k}, self.__fname, self.__encoding, self.__errors"
+LP = (("d", "bytes"), ("k", "int"), ("name", "str"), ("fname", ("opt", "str")), ("enc", "str"), ("errs", "str"))
+
+
+class LemLen(Lemma):
+    name = "members_spec has k elements"
+    function = "spec:members_spec"
+    params = LP
+    requires = ("k >= 0",)
+    claim = "len(members_spec(d, k, fname, enc, errs)) == k"
+    induction = ({"k": "k - 1"},)
+    measure = "k"
+
+
+class LemIdx(Lemma):
+    name = "last_idx is -1 or a valid index"
+    function = "spec:last_idx"
+    params = LP
+    requires = ("k >= 0",)
+    claim = "-1 <= last_idx(d, k, name, enc, errs) and last_idx(d, k, name, enc, errs) < k"
+    induction = ({"k": "k - 1"},)
+    measure = "k"
+
+
+class LemLast(Lemma):
+    name = "lookup by name returns the last member of that name"
+    function = "spec:dict_spec"
+    params = LP
+    requires = ("k >= 0",)
+    claim = ("(name in dict_spec(d, k, fname, enc, errs)) == (last_idx(d, k, name, enc, errs) >= 0) and "
+             "implies(last_idx(d, k, name, enc, errs) >= 0, "
+             "dict_spec(d, k, fname, enc, errs)[name] == members_spec(d, k, fname, enc, errs)[last_idx(d, k, name, enc, errs)])")
+    induction = ({"k": "k - 1"},)
+    measure = "k"
+    uses = ((LemLen, {"k": "k - 1"}), (LemIdx, {"k": "k - 1"}), (LemLen, {}))
+
+
+class GetNames(Contract):
+    target = MOD + ":ArFile.getnames"
+    modular = False
+    ensures = ("len(result) == len(self.__members)", "result == comp(0, self.__members)")
+    modifies = ()
+
+    def setup(self, ex):
+        me, _ = _arfile_obj(ex)
+        return {"self": me}
+
+
+class IndexArchive(Contract):
+    """__index_archive: opens the named file or uses the given file object, then indexes it"""
+    target = MOD + ":ArFile.__index_archive"
+    modular = False
+    modifies = ("self.__members", "self.__members_dict", "self.__fileobj.pos")
+
+    def __init__(self, by_name):
+        self.by_name = by_name
+        data = "file_data(self.__fname)" if by_name else "self.__fileobj.data"
+        self.requires = ("%s[0:8] == GLOBAL_HEADER" % data, "n >= 0", "ar_wf(%s, 0, n)" % data,
+                         "len(self.__members) == 0", "self.__members_dict == no_members_dict()") + \
+            (() if by_name else ("self.__fileobj.pos == 0",))
+        a = "%s, n, self.__fname, self.__encoding, self.__errors" % data
+        self.ensures = ("self.__members == members_spec(%s)" % a, "self.__members_dict == dict_spec(%s)" % a)
+
+    def setup(self, ex):
+        me, _ = _arfile_obj(ex)
+        from vf.pyvc.values import empty_dict, DictVal
+        if self.by_name:
+            fn = fresh("str", "fname")
+            ex.assume(fn.length() > 0)
+            me.fields["_ArFile__fname"] = VOpt(z3.BoolVal(False), fn)
+        else:
+            me.fields["_ArFile__fname"] = fresh(("opt", "str"), "fname")
+            fnm = me.fields["_ArFile__fname"]
+            ex.assume(z3.Or(fnm.isnone, fnm.val.length() == 0))
+            D = z3.Const(fresh_name("data"), SeqI)
+            me.fields["_ArFile__fileobj"] = VOpt(z3.BoolVal(False), VObj("BinaryIO", {
+                "data": VSeq("bytes", "int", D), "pos": VInt(z3.Int(fresh_name("fppos"))), "closed": VBool(False)}, "fileobj"))
+        n = z3.Int(fresh_name("n"))
+        return {"self": me, "n": VInt(n)}
 
 
 class CollectMembers(Contract):
     target = MOD + ":ArFile.__collect_members"
     modular = False
+    ghosts = ("n",)
     requires = ("fp.pos == 0", "fp.data[0:8] == GLOBAL_HEADER", "n >= 0", "ar_wf(fp.data, 0, n)",
                 "len(self.__members) == 0", "self.__members_dict == no_members_dict()")
     ensures = ("self.__members == members_spec(%s)" % ARGS.format(k="n"),
@@ -481,6 +580,38 @@ def _arfile_obj(ex):
     return me, members
 
 
+class Init(Contract):
+    target = MOD + ":ArFile.__init__"
+    modular = False
+    modifies = ("self.__members", "self.__members_dict", "self.__fname", "self.__fileobj", "self.__encoding", "self.__errors",
+                "fileobj.pos")
+
+    def __init__(self, by_name):
+        self.by_name = by_name
+        data = "file_data(filename)" if by_name else "fileobj.data"
+        self.requires = ("%s[0:8] == GLOBAL_HEADER" % data, "n >= 0", "ar_wf(%s, 0, n)" % data) + \
+            (() if by_name else ("fileobj.pos == 0",))
+        a = "%s, n, filename, fs_encoding() if encoding is None else encoding, 'surrogateescape' if errors is None else errors" % data
+        self.ensures = ("self.__members == members_spec(%s)" % a, "self.__members_dict == dict_spec(%s)" % a)
+
+    def setup(self, ex):
+        me = VObj("ArFile", {}, "self")
+        if self.by_name:
+            fn = fresh("str", "filename")
+            ex.assume(fn.length() > 0)
+            filename, fileobj = fn, NONE
+        else:
+            filename = NONE
+            D = z3.Const(fresh_name("data"), SeqI)
+            fileobj = VObj("BinaryIO", {"data": VSeq("bytes", "int", D), "pos": VInt(z3.Int(fresh_name("fppos"))),
+                                        "closed": VBool(False)}, "fileobj")
+        enc = fresh(("opt", "str"), "encoding")
+        ex.assume(z3.Or(enc.isnone, enc.val.length() > 0))
+        from vf.pyvc.values import lift
+        return {"self": me, "filename": filename, "mode": lift("r"), "fileobj": fileobj, "encoding": enc,
+                "errors": fresh(("opt", "str"), "errors"), "n": VInt(z3.Int(fresh_name("n")))}
+
+
 MEMBER_FIELDS = [("_ArMember__name", ("opt", "str")), ("_ArMember__mtime", ("opt", "int")), ("_ArMember__owner", ("opt", "int")),
                  ("_ArMember__group", ("opt", "int")), ("_ArMember__fmode", ("opt", "bytes")), ("_ArMember__size", ("opt", "int")),
                  ("_ArMember__fname", ("opt", "str")), ("_ArMember__fp", "objnone"), ("_ArMember__offset", "int"),
@@ -529,6 +660,9 @@ def build_world():
     w.spec_func(ar_wf, rec=dict(args=["bytes", "int", "int"], ret="bool"))
     w.spec_func(members_spec, rec=dict(args=["bytes", "int", "opt:str", "str", "str"], ret=("list", REC)))
     w.spec_func(dict_spec, rec=dict(args=["bytes", "int", "opt:str", "str", "str"], ret=("dict", "str", REC)))
+    w.spec_func(last_idx, rec=dict(args=["bytes", "int", "str", "str", "str"], ret="int"))
+    w.spec_env["file_data"] = VFunc("builtin", "file_data",
+                                    fn=lambda ex, a, kw: VSeq("bytes", "int", F_FILEDATA((a[0].val if isinstance(a[0], VOpt) else a[0]).t)))
     w.spec_env["fs_encoding"] = VFunc("builtin", "fs_encoding",
                                       fn=lambda ex, a, kw: VSeq("str", "int", z3.Const("fs_encoding", SeqI)))
     from vf.pyvc.values import lift
@@ -544,11 +678,16 @@ def contracts():
     cs += variants(Seek)
     cs += variants(Readlines)
     for wf in (False, True):
-        for base in (FromFile, FromFileIdentity):
+        for base in (FromFile, FromFileIdentity, FromFileWellFormed):
             c = base(wf)
             c.__class__ = type("%s_%s" % (base.__name__, "fname" if wf else "nofname"), (base,), {})
             cs.append(c)
-    cs += [CollectMembers(), GetMember(), GetMemberMissing(), GetMembers()]
+    cs += [CollectMembers(), GetMember(), GetMemberMissing(), GetMembers(), GetNames()]
+    for by_name in (False, True):
+        for base in (IndexArchive, Init):
+            c = base(by_name)
+            c.__class__ = type("%s_%s" % (base.__name__, "byname" if by_name else "fileobj"), (base,), {})
+            cs.append(c)
     return cs
 
 
@@ -627,8 +766,11 @@ def run(ctx):
     w = build_world()
     cs = contracts()
     for c in cs:
-        if not isinstance(c, (FromFile, CollectMembers, GetMember, GetMemberMissing, GetMembers)):
+        if not isinstance(c, (FromFile, CollectMembers, GetMember, GetMemberMissing, GetMembers, GetNames, IndexArchive, Init)):
             w.add_contract(c)
+    cm = CollectMembers()
+    cm.modular = True
+    w.add_contract(cm)
     caller_view = FromFile(True)
     caller_view.modular = True
     w.add_contract(caller_view)
@@ -637,6 +779,7 @@ def run(ctx):
     # modular calls, verification iterates over all variants
     reps = {c.qualname: replay_member for c in cs if isinstance(c, MemberContract)}
     verify_contracts(ctx, w, cs, reps)
+    verify_lemmas(ctx, w, [LemLen(), LemIdx(), LemLast()])
     ctx.solve()
     ev, nt, samples = bounded_arfile(ctx)
     ctx.bounded("B-06 ArFile(listing, getmember, header fields) + interleaved member operations vs io.BytesIO",
@@ -645,13 +788,20 @@ def run(ctx):
                 "sequences; non-trivial = distinct (non-empty archive, open mode)",
                 "members <= 3, 7 contents, %d operations per archive" % (6 if ctx.tier == "quick" else 12), samples,
                 exhaustive=(ctx.tier != "quick"))
-    ctx.level = "other"
+    ctx.level = "proof"
     ctx.explanation = (
-        "PROVED (for all archives, positions, sizes, incoming file positions; three open modes): ArMember.read, "
-        "readline, readlines, seek, tell against 'io.BytesIO over data[offset:end]' - every obligation generated from "
-        "the AST of the real arfile.py and discharged by SMT. BOUNDED ONLY (not proved): ArFile.__collect_members, "
-        "ArMember.from_file, getmember/getnames (header walk, padding, header field slicing) - checked on generated "
-        "archives against an independent serializer and io.BytesIO oracles.")
+        "PROVED for all inputs (every obligation generated from the AST of the real arfile.py and discharged by SMT): "
+        "ArMember.read / readline / readlines / seek / tell behave as io.BytesIO over data[offset:end] in the three ways a "
+        "member gets its file object and for every incoming position of a shared file object; ArMember.from_file decodes the "
+        "60-byte header (all outcomes: end of data, short header, bad magic, non-numeric field) and on a well-formed header "
+        "yields a member satisfying the invariant the member operations require; ArFile.__collect_members walks the headers "
+        "(padding of odd sizes) and builds exactly members_spec / dict_spec of the archive (loop invariant, termination); "
+        "__index_archive and __init__ for file name and file object; getmember / getmembers / getnames; lemmas by guarded "
+        "induction: members_spec(k) has k elements, and lookup by name in dict_spec returns the LAST member of that name. "
+        "The bounded part (generated archives + interleaved operations against io.BytesIO) is kept as an independent "
+        "cross-check of the engine, not as part of the claim. 'The members present in an archive' is defined by the header "
+        "walk of the ar format (hdr_pos / ar_wf); int() of a header field and bytes.decode are uninterpreted functions shared "
+        "by code and specification.")
     ctx.assumptions += ["A-SEM: pyvc's encoding of the Python subset is faithful (cross-checked by replay and mutants)",
                         "A-INT: Python int is mathematical", "open(name,'rb') returns the archive's bytes and does not fail",
                         "ArMember.read: size <= 0 means 'to the end' (documented convention), compared with BytesIO.read(-1)"]
